@@ -87,6 +87,7 @@ class Volume:
     s3000: bool = False
     dir_mode: str = "chain"  # "chain" | "run"
     dir_sectors: int = 1
+    dir_first: bool = False  # allocate the directory before the files (so that file data can be the last thing on the disc)
 
 
 @dataclass
@@ -128,6 +129,15 @@ class Allocator:
         if shape == "reversed":
             c = self.take(n, "contiguous")
             return c[::-1]
+        if shape in ("rotl", "hi-lo"):
+            picks = sorted(rng.sample(self.free, n))
+            if n > 1:
+                # rotl: s1, s2, …, s_last, s0   (several undecoded sectors in a row, then a link DOWN to a decoded one)
+                # hi-lo: upper half ascending, then lower half ascending  (e.g. 40,41,10,11)
+                picks = picks[1:] + picks[:1] if shape == "rotl" else picks[n // 2 :] + picks[: n // 2]
+            for p in picks:
+                self.free.remove(p)
+            return picks
         picks = rng.sample(self.free, n)
         if shape == "sorted":
             picks.sort()
@@ -158,7 +168,7 @@ class Allocator:
             self.words[s] = flag
 
 
-def serialize(disc: Disc, rng, shapes=("contiguous", "reversed", "random", "sorted", "head-not-lowest")) -> Tuple[bytes, dict]:
+def serialize(disc: Disc, rng, shapes=("contiguous", "reversed", "random", "sorted", "head-not-lowest", "rotl", "hi-lo")) -> Tuple[bytes, dict]:
     """-> image bytes, info (chains chosen per file, for coverage statistics)."""
     out = bytearray()
     info = {"chains": [], "dir_modes": [], "exact_fill": 0, "head_not_lowest": 0}
@@ -167,8 +177,17 @@ def serialize(disc: Disc, rng, shapes=("contiguous", "reversed", "random", "sort
         alloc = Allocator(rng, p.sectors)
         ventries = bytearray()
         for v in p.volumes:
-            # files first (their start sectors go into the directory)
+            # files first (their start sectors go into the directory) unless the volume asks otherwise
             entries = bytearray()
+            pre_dsecs = None
+            if v.dir_first:
+                nd0 = max(v.dir_sectors, nsectors(24 * (len(v.files) + 1)))
+                if v.dir_mode == "run":
+                    pre_dsecs = alloc.take_run(nd0)
+                    alloc.run(pre_dsecs, rng.choice([SAT_RES1, SAT_RES2]))
+                else:
+                    pre_dsecs = alloc.take(nd0, rng.choice(shapes))
+                    alloc.chain(pre_dsecs)
             for f in v.files:
                 data = f.content()
                 n = nsectors(len(data))
@@ -186,7 +205,9 @@ def serialize(disc: Disc, rng, shapes=("contiguous", "reversed", "random", "sort
                 entries += akai_name(f.name) + bytes(4) + bytes([f.ftype]) + len(data).to_bytes(3, "little") + struct.pack("<H", secs[0]) + bytes(2)
             table = bytes(entries) + bytes(8) + struct.pack("<H", 0xD747) + bytes(14)
             nd = max(v.dir_sectors, nsectors(len(table)))
-            if v.dir_mode == "run":
+            if pre_dsecs is not None:
+                dsecs = pre_dsecs
+            elif v.dir_mode == "run":
                 dsecs = alloc.take_run(nd)
                 alloc.run(dsecs, rng.choice([SAT_RES1, SAT_RES2]))
             else:
